@@ -711,7 +711,8 @@ METHOD_PURE = {"sum", "std", "mean", "min", "max", "round", "any", "all", "flatt
                "cumsum", "argsort", "argmin", "argmax", "nonzero", "transpose", "to_numpy", "apply", "reset_index",
                "to_markdown", "groupby", "keys", "items", "lower", "upper", "strip", "format", "startswith", "endswith",
                "ngroup", "itertuples", "unique", "isin", "dot", "clip", "repeat", "take", "conj", "prod", "var", "ptp",
-               "searchsorted", "from_arrays", "from_tuples", "get_loc", "isnull", "notnull", "dropna", "fillna", "map"}
+               "searchsorted", "from_arrays", "from_tuples", "drop_duplicates", "sort_values", "to_list", "sort_index", "set_index", "from_frame", "droplevel",
+               "agg", "transform", "head", "tail", "rename", "assign", "merge", "join_", "stack", "unstack", "pivot", "value_counts", "nunique", "duplicated", "get_loc", "isnull", "notnull", "dropna", "fillna", "map"}
 
 
 def call_method(ev, recv, name, args, kwargs, node):
@@ -781,6 +782,12 @@ def call_method(ev, recv, name, args, kwargs, node):
         if name == "format":
             return Top("str.format")
     v = as_v(ev, recv)
+    if name in ("apply", "map") and args:
+        from .evalr import LambdaV, FuncV
+        if isinstance(args[0], (LambdaV, FuncV)):
+            row = Sym("row", ("param", "notnone"))
+            body = ev.call(args[0], [row], {})
+            return App("m:" + name, (v, as_v(ev, body)), _kw(ev, kwargs))
     if name in ("item",):
         return v
     if name == "tolist":
